@@ -463,6 +463,22 @@ fn mech_narrow(tbl: &Tbl, op: &str, a: usize, b: usize) -> Option<&'static str> 
             }
         }
     }
+    // (v) the same through the partial-vs-partial arm of intersect_pair (notes/C02-fixes/15): a field both
+    // partial types name is intersected field-wise, which rebuilds a cyclic field union
+    if op == "intersect" {
+        let parts = |r: &BTreeSet<usize>| -> Vec<Vec<(String, usize)>> {
+            r.iter().filter_map(|i| match tbl.types.get(*i) { Some(Type::Partial { fields, .. }) => Some(fields.clone()), _ => None }).collect()
+        };
+        for f1 in parts(&ra) {
+            for f2 in parts(&rb) {
+                for (l1, t1) in &f1 {
+                    if f2.iter().any(|(l2, _)| l2 == l1) && tbl.kind(*t1) == "union" && reach_has_cycle(tbl, &[*t1]) {
+                        return Some("narrow=inner-cyclic-union-rebuilt");
+                    }
+                }
+            }
+        }
+    }
     // (iv) a nested union with cycles inside is flattened by union_type_ids
     if variants_of(tbl, a).iter().chain(variants_of(tbl, b).iter()).any(|x| matches!(tbl.types.get(*x), Some(Type::Union(_))) && reach_has_cycle(tbl, &[*x])) {
         return Some("union=flatten-changes-cycle-depth");
